@@ -246,7 +246,7 @@ impl Scenario for Transport {
         };
         let srv = ctx.worker_dir.join(format!("srv-{}", w.fixture));
         let mut cmd = std::process::Command::new("git");
-        cmd.arg("upload-pack").arg(&srv).env("GIT_CONFIG_NOSYSTEM", "1").env("GIT_CONFIG_GLOBAL", "/dev/null").env_remove("GIT_PROTOCOL");
+        cmd.arg("upload-pack").arg(&srv).env("LC_ALL", "C").env("GIT_CONFIG_NOSYSTEM", "1").env("GIT_CONFIG_GLOBAL", "/dev/null").env_remove("GIT_PROTOCOL");
         // exactly what gitoxide's own transports do when they spawn the server or greet a daemon: the version is
         // announced unless it is 1 (gix-transport/src/client/blocking_io/file.rs, git/mod.rs message::connect)
         if w.version != 1 {
